@@ -130,7 +130,9 @@ def render_items(cz, items, rng):
     prev_word = False
     for it, piece in zip(items, out):
         word = it["k"] in ("KW", "LABEL", "NUM", "MODEL", "PHOTOS", "SEMI", "COMMA", "COMMENT")
-        if word and prev_word and not (it["k"] == "COMMENT" and rng.random() < 0.4):
+        # `;` and `,` may be written directly behind the previous token (`PHSP;`, `;;`, `1.0,`)
+        glued = it["k"] in ("SEMI", "COMMA") and rng.random() < 0.5
+        if word and prev_word and not glued and not (it["k"] == "COMMENT" and rng.random() < 0.4):
             # (a comment may also start directly behind the last token: `0.04# c`)
             text += " "
         text += piece
@@ -170,7 +172,10 @@ def build_generated(args):
     s0f = snap_or_error(text0, {"mode": "files"}, Path(tmp), s0.get("deep_mothers"))
     bad = []
     if "raised" in s0:
-        raise Machinery(f"base text does not parse: {s0}\n{text0}")
+        # the base texts are in the language (DecSyntax.Accepts, bound to the real grammar on both sides of the border by
+        # DecSyntaxNeg): the real parser refusing one is an observation about the parser
+        return {"cid": cid, "script": script, "how": how0, "text0": text0, "text1": text0,
+                "bad": [("C02:text-of-the-language-is-accepted", f"{s0.get('raised')}: {s0.get('msg', '')[:200]}")]}
     d = first_diff(s0, s1)
     if d:
         bad.append(("C02:edited-text-gives-identical-answers", d))
